@@ -100,7 +100,7 @@ const c18Rule = "strings s (rapid strings, raw bytes, escape mixes) quoted by st
 	"options per parser (Unquote / Upper with disjoint type selections, a recording Map), given before or after the Lexer option; oracle: strconv.Unquote(token text) for selected " +
 	"literal tokens, strings.ToUpper for Upper, everything else and every position identical to the unmapped lexer's stream, the recorder " +
 	"sees each non-EOF token of its types exactly once in stream order (elided included); an escape strconv rejects must give an error " +
-	"located at that token; non-trivial = some selected literal contains a backslash, quote, newline, non-ASCII or invalid-UTF-8 escape; " +
+	"located at that token, by Parser.Lex and identically by the three parse entry points; non-trivial = some selected literal contains a backslash, quote, newline, non-ASCII or invalid-UTF-8 escape; " +
 	"distinct by SHA-256 of the case"
 
 func typeName(def lexer.Definition, t lexer.TokenType) string {
